@@ -174,7 +174,11 @@ def subst(t, m):
         return ('path', t[1], tuple(subst(x, m) for x in t[2]))
     if k in ('ref', 'ptr'): return (k, t[1], subst(t[2], m))
     if k == 'slice': return ('slice', subst(t[1], m))
-    if k == 'array': return ('array', subst(t[1], m), t[2])
+    if k == 'array':
+        n = t[2]
+        if n in m and m[n][0] == 'path' and not m[n][2]:
+            n = m[n][1]                 # const generic length
+        return ('array', subst(t[1], m), n)
     if k == 'tuple': return ('tuple', tuple(subst(x, m) for x in t[1]))
     return t
 
